@@ -155,7 +155,13 @@ func wcBody(env *simrt.Env, check string) {
 			n := nsamp + simrt.Draw(3*nsamp)
 			var ext []int64
 			if simrt.Draw(3) == 0 {
-				for k := 0; k < 1+simrt.Draw(5); k++ {
+				nExt := 1 + simrt.Draw(5)
+				if simrt.Draw(6) == 0 {
+					// a burst: more bytes than the side file's write buffer holds (hundreds of edges in one block)
+					nExt = 300 + simrt.Draw(900)
+					simrt.Hit("ext-trigger-burst")
+				}
+				for k := 0; k < nExt; k++ {
 					extNext += 1 + int64(simrt.Draw(50))
 					ext = append(ext, extNext)
 				}
